@@ -37,7 +37,7 @@ from sim import core
 PROPERTY = "C15"
 ISOLATE = True
 TIERS = {
-    "quick": {"runs": 14000, "budget_s": 60, "timeout_s": 40, "chunk": 32, "det_sample": 48, "det_runs": 300,
+    "quick": {"runs": 14000, "budget_s": 100, "timeout_s": 40, "chunk": 32, "det_sample": 48, "det_runs": 300,
               "shrink_execs": 600, "shrink_s": 60.0},
     "thorough": {"runs": 400000, "budget_s": 570, "timeout_s": 60, "chunk": 32, "det_sample": 64, "det_runs": 1000,
                  "shrink_execs": 800, "shrink_s": 120.0},
